@@ -65,7 +65,7 @@ type Case struct {
 	Steps []Step `json:"steps"`
 }
 
-var kinds = []string{"direct", "host", "catchall", "ignore-add", "ignore-remove", "redirect", "notfound", "nomethod", "options", "lookup", "lookup-tsr", "host-infix-tsr", "double-infix-tsr", "infix", "hijack", "infix-empty-seg", "double-infix-empty-seg", "nomethod-host"}
+var kinds = []string{"direct", "host", "catchall", "ignore-add", "ignore-remove", "redirect", "notfound", "nomethod", "options", "lookup", "lookup-tsr", "host-infix-tsr", "double-infix-tsr", "infix", "hijack", "infix-empty-seg", "double-infix-empty-seg", "nomethod-host", "infix-sib", "infix-sib", "infix-sib-miss", "infix-sib-miss"}
 
 type expKey struct{}
 
@@ -315,6 +315,10 @@ func newHarness() (*harness, error) {
 	})
 	f.MustHandle("POST", "/m/{tok}", rh)
 	f.MustHandle("PUT", "/m/{tok}", rh)
+	// an infix catch-all behind a static segment that competes with a parameter: a direct match through it leaves untried
+	// alternatives behind on the contexts it used
+	f.MustHandle("GET", "/u/{tok}/b/*{tok2}/end", rh)
+	f.MustHandle("GET", "/u/{tok}/{tok2}", rh)
 	// hostname routes of another method whose labels compete (static "api" versus a parameter): the lookups that compute the
 	// Allow header of a 405 backtrack through them on the context the no-method handler then receives
 	f.MustHandle("DELETE", "{tok}.api.nm.example.com/sync", rh)
@@ -357,6 +361,10 @@ func buildStep(s Step, tok string, n int) (*http.Request, *exp) {
 		path, e.scope = "/none/"+tok, fox.NoRouteHandler
 	case "nomethod":
 		path, e.scope = "/m/"+tok, fox.NoMethodHandler
+	case "infix-sib":
+		path, e.pattern, e.params = "/u/"+tok+"/b/"+tok+"/end", "/u/{tok}/b/*{tok2}/end", []string{"tok", "tok2"}
+	case "infix-sib-miss":
+		path, e.scope = "/u/"+tok+"/b/"+tok+"/2222222"+tok, fox.NoRouteHandler
 	case "nomethod-host":
 		host, path, e.scope = tok+".api.nm.example.com", "/report/"+tok, fox.NoMethodHandler
 	case "options":
